@@ -137,6 +137,50 @@ func mapLinear(cfg Config, file string, runs, steps, keyRange int, mk func(probe
 			return op(insert, k, st), true
 		})
 	}
+	// directed runs: fill, drain completely, refill (the container is used again after it has been emptied);
+	// churn: the same few keys removed and put back again and again
+	var scripts [][]tt.Op
+	for _, n := range []int{1, 3, 4, 5, 9, 20} {
+		sc := []tt.Op{op("new", 0)}
+		for k := 0; k < n; k++ {
+			sc = append(sc, op(insert, (k*7)%n, 100+k))
+		}
+		for k := 0; k < n; k++ {
+			sc = append(sc, op(remove, k))
+		}
+		for k := 0; k < n; k++ {
+			sc = append(sc, op(insert, n-1-k, 200+k))
+		}
+		for k := n - 1; k >= 0; k-- {
+			sc = append(sc, op(remove, k))
+		}
+		sc = append(sc, op(insert, 2, 300), op(insert, 0, 301), op(remove, 2), op(insert, 1, 302))
+		scripts = append(scripts, sc)
+	}
+	for _, ks := range [][]int{{0}, {0, 1, 2}, {3, 1}} {
+		sc := []tt.Op{op("new", 0)}
+		for round := 0; round < 8; round++ {
+			for _, k := range ks {
+				sc = append(sc, op(insert, k, 10*round+k+1), op(remove, k))
+			}
+		}
+		for _, k := range ks {
+			sc = append(sc, op(insert, k, 99))
+		}
+		scripts = append(scripts, sc)
+	}
+	for _, sc := range scripts {
+		sc := sc
+		cur := 0
+		s := mk(func() []int { return []int{0, 1, 2, 3, 19} }, func() bool { return true })
+		ls.Run(s, func(st int) (tt.Op, bool) {
+			if cur >= len(sc) {
+				return tt.Op{}, false
+			}
+			cur++
+			return sc[cur-1], true
+		})
+	}
 	return ls.Close()
 }
 
